@@ -680,8 +680,35 @@ def t_cache(tree):
             nested = any(isinstance(n, (ast.FunctionDef, ast.Lambda)) for n in ast.walk(ast.Module(body=fn.body, type_ignores=[])))
             if any(isinstance(n, ast.Name) and n.id == selfn and not isinstance(n.ctx, ast.Load) for n in ast.walk(fn)) or nested:
                 continue
+            doc0 = 1 if (fn.body and isinstance(fn.body[0], ast.Expr) and isinstance(fn.body[0].value, ast.Constant)) else 0
+            first = fn.body[doc0] if len(fn.body) > doc0 else None
+
+            def read_first(attr_):
+                """the method's first statement reads self.attr unconditionally: hoisting the read changes nothing"""
+                if not isinstance(first, (ast.Assign, ast.Expr, ast.Return, ast.AugAssign)):
+                    return False
+                lazy = (ast.IfExp, ast.BoolOp, ast.Lambda, ast.ListComp, ast.SetComp, ast.DictComp, ast.GeneratorExp)
+
+                def rec(n):
+                    if isinstance(n, lazy) or (isinstance(n, ast.Compare) and len(n.ops) > 1):
+                        return False
+                    if isinstance(n, ast.Attribute) and isinstance(n.ctx, ast.Load) and isinstance(n.value, ast.Name) and n.value.id == selfn and n.attr == attr_:
+                        return True
+                    return any(rec(c_) for c_ in ast.iter_child_nodes(n))
+                # nothing with an effect may be evaluated before it: keep it simple, the statement's value must start with the read
+                v = getattr(first, "value", None)
+                if v is None:
+                    return False
+                calls_before = False
+                for n in ast.walk(v):
+                    if isinstance(n, ast.Call):
+                        calls_before = True
+                return rec(v) and (not calls_before or (isinstance(v, ast.Call) and isinstance(v.func, ast.Attribute) and rec(v.func.value)
+                                                         and not any(isinstance(x, ast.Call) for a_ in list(v.args) + [k_.value for k_ in v.keywords] for x in ast.walk(a_))))
+            if fn.name.startswith("__"):
+                continue
             for attr, c in sorted(counts.items()):
-                if c < 2 or attr in stored_elsewhere or attr in callee:
+                if c < 2 or attr in stored_elsewhere or attr in callee or not read_first(attr):
                     continue
                 k[0] += 1
                 nm = "_mm_c%d" % k[0]
